@@ -63,9 +63,11 @@ func (r *rec) ev(m string, pod *api.PodSandbox, ctr *api.Container) error {
 
 var (
 	retAdjust  = &api.ContainerAdjustment{Annotations: map[string]string{"from": "create-handler"}}
+	// (the handlers' updates also name the container of the request itself, twice in one list, and
+	// carry nothing else: whatever a handler returns is the runtime's business, not the stub's)
 	retUpdateC = []*api.ContainerUpdate{{ContainerId: "upd-by-create"}}
-	retUpdateU = []*api.ContainerUpdate{{ContainerId: "upd-by-update"}, {ContainerId: "second"}}
-	retUpdateS = []*api.ContainerUpdate{{ContainerId: "upd-by-stop"}}
+	retUpdateU = []*api.ContainerUpdate{{ContainerId: "upd-by-update"}, {ContainerId: "ctr-0815"}, {ContainerId: "ctr-0815", IgnoreFailure: true}}
+	retUpdateS = []*api.ContainerUpdate{{ContainerId: "ctr-0815"}, {ContainerId: "upd-by-stop"}, {}}
 )
 
 type mRunPod struct{ r *rec }
@@ -338,11 +340,11 @@ func checkDispatch(t mkType) {
 					fail("result-changed|"+sfx, "CreateContainer returned adjust %v updates %v", adjust, updates)
 				}
 			case "UpdateContainer":
-				if len(updates) != 2 || updates[0] != retUpdateU[0] || updates[1] != retUpdateU[1] {
+				if len(updates) != 3 || updates[0] != retUpdateU[0] || updates[1] != retUpdateU[1] || updates[2] != retUpdateU[2] {
 					fail("result-changed|"+sfx, "UpdateContainer returned updates %v", updates)
 				}
 			case "StopContainer":
-				if len(updates) != 1 || updates[0] != retUpdateS[0] {
+				if len(updates) != 3 || updates[0] != retUpdateS[0] || updates[1] != retUpdateS[1] || updates[2] != retUpdateS[2] {
 					fail("result-changed|"+sfx, "StopContainer returned updates %v", updates)
 				}
 			}
